@@ -124,6 +124,41 @@ Theorem C10_handshake_messages_order_sensitive :
 Proof. exact handshake_messages_order_sensitive. Qed.
 Print Assumptions C10_handshake_messages_order_sensitive.
 
+(* ---------------- key log, PSK ServerKeyExchange, DTLS 1.3 ECDSA schemes (live legs) ---------------- *)
+
+Theorem C10_keylog_line_usable_spec :
+  forall wcr lcr lsec sec, keylog_line_usable wcr lcr lsec sec = true <-> lcr = wcr /\ lsec = sec.
+Proof. exact keylog_line_usable_spec. Qed.
+Print Assumptions C10_keylog_line_usable_spec.
+
+(* known finding (KeyLogWriter writes nothing under DTLS 1.3): an absent line is never usable *)
+Theorem C10_keylog_absent_refuted :
+  forall wcr sec, wcr <> [] -> keylog_line_usable wcr [] [] sec = false.
+Proof. exact keylog_absent_refuted. Qed.
+Print Assumptions C10_keylog_absent_refuted.
+
+(* known finding (ECDHE_PSK ServerKeyExchange without a configured hint is ServerECDHParams alone): that
+   byte string is the RFC 5489 encoding for no hint at all; the conforming one starts with 00 00 *)
+Theorem C10_ecdhe_psk_ske_without_hint_length_refuted :
+  forall hint curve pub, server_ecdh_params curve pub <> ecdhe_psk_server_key_exchange hint curve pub.
+Proof. exact ecdhe_psk_ske_without_hint_length_refuted. Qed.
+Print Assumptions C10_ecdhe_psk_ske_without_hint_length_refuted.
+
+Theorem C10_ecdhe_psk_ske_empty_hint :
+  forall curve pub, ecdhe_psk_server_key_exchange [] curve pub = [0; 0] ++ server_ecdh_params curve pub.
+Proof. exact ecdhe_psk_ske_empty_hint. Qed.
+Print Assumptions C10_ecdhe_psk_ske_empty_hint.
+
+(* RFC 8446 4.2.3: one ECDSA scheme per curve; known finding: a secp384r1 key under 0x0403 *)
+Theorem C10_ecdsa_scheme13_injective :
+  forall g g' s, ecdsa_scheme13 g = Some s -> ecdsa_scheme13 g' = Some s -> g = g'.
+Proof. exact ecdsa_scheme13_injective. Qed.
+Print Assumptions C10_ecdsa_scheme13_injective.
+
+Theorem C10_p384_key_under_scheme_0403_refuted : ecdsa_scheme13 24 <> Some 1027.
+Proof. exact p384_key_under_scheme_0403_refuted. Qed.
+Print Assumptions C10_p384_key_under_scheme_0403_refuted.
+
 (* ---------------- record protection layouts (also used by C05 and C09) ---------------- *)
 
 (* equal additional data => equal (epoch, sequence number, type, version, length) *)
